@@ -28,7 +28,10 @@ RS = 'ska_ref::RefSka'
 
 def run(facts, chk, tier, only=None):
     chk.guard('C05.case', 'C05.case:run', lambda: c04.check_case(facts, chk, 'C05'))
-    wv = facts.fn(RS + '::write_vcf')
+    from ..facts import fn_with_helpers
+    # private helpers holding the header / record builders are inlined so that the anchors stay visible
+    wv = fn_with_helpers(facts, RS + '::write_vcf', lambda c: (c.name or '').endswith(('add_contig', 'add_sample_name', 'set_chromosome', 'set_genotypes', 'set_position'))
+                         or ((c.name or '').endswith('::from') and 'Position' in (c.full or '')), keep=(RS + '::pseudoalignment',))
 
     # ---------------------------------------------------------------- genotype decision
     def gt():
@@ -41,7 +44,7 @@ def run(facts, chk, tier, only=None):
             raise AnchorLost('write_vcf: genotype strings: %d "0", %d ".", %d index' % (len(zero), len(dot), len(ts)))
         # inner loop head: the `next` call whose Some edge dominates the "0" block
         nx = [bb for bb, t in wv.calls() if (t.callee.name or '').endswith('::next') and wv.dominates(bb, zero[0])]
-        inner = max(nx)
+        inner = [x for x in nx if all(wv.dominates(y, x) for y in nx)][0]      # innermost loop head
         sb = wv.blocks[inner].term.target
         st = wv.blocks[sb].term
         head = next(tg for v, tg in st.targets if v == 1)
@@ -203,8 +206,9 @@ def run(facts, chk, tier, only=None):
         bad = []
         n = 0
         IC = 'ska_ref::idx_check::'
-        for nc in (1, 2, 3):
-            for lens in itertools.product((1, 2, 3), repeat=nc):
+        maxc, maxl = (4, 4) if tier == 'thorough' else (3, 3)
+        for nc in range(1, maxc + 1):
+            for lens in itertools.product(range(1, maxl + 1), repeat=nc):
                 I = Interp(facts)
                 seqs = Cell(Agg('array', 0, [Agg('array', 0, [BV(8, 65)] * L) for L in lens]), 'ref')
                 ic = Cell(I.call_fn(IC + 'IdxCheck::new', [RefV(seqs, (), (0, nc))]), 'ic')
@@ -233,4 +237,4 @@ def run(facts, chk, tier, only=None):
             chk.violation('C05.coord', 'C05.coord:IdxCheck', where='ska_ref::idx_check', evals=n,
                           detail='contig lengths %s: IdxCheck yields %s, expected %s' % bad[0])
         else:
-            chk.ok('C05.coord', 'C05.coord:IdxCheck', 'ska_ref::idx_check', 'absolute index -> (contig, offset) for all %d contig-length vectors (<=3 contigs, lengths 1..3)' % n, evals=n)
+            chk.ok('C05.coord', 'C05.coord:IdxCheck', 'ska_ref::idx_check', 'absolute index -> (contig, offset) for all %d contig-length vectors (<=%d contigs, lengths 1..%d)' % (n, 4 if tier == 'thorough' else 3, 4 if tier == 'thorough' else 3), evals=n)
